@@ -146,7 +146,10 @@ def make_holes(eng, o, meter, form, free_clocks=True, scaler_range=(-3, 3), tag=
                 if free_clocks:
                     clock_hole(node.vstart, node.end)
                 return
-            chars = [fresh(0x20, 0x7E) for _ in range(ln)]
+            # any 7-bit ASCII character, NUL and DEL included. A 12-octet octet-string whose octets happen to form a valid COSEM
+            # date-time is indistinguishable on the wire from a clock (same tag, same length): 12-character texts keep to
+            # 0x20..0x7F, which never is one (month octet >= 0x20) - stated as an assumption of C07-C09.
+            chars = [fresh(0x20 if (ln == 12 and node.kind == "octets") else 0x00, 0x7F) for _ in range(ln)]
             if ct is not None and meter == "kamstrup" and parent is not None and idx >= 1 and CR.cde(o[parent.children[idx - 1].vstart:parent.children[idx - 1].end]) == "96.1.1" and ln >= 3:
                 is685 = z3.And(chars[0].t == 0x36, chars[1].t == 0x38, chars[2].t == 0x35)
                 eng.add(is685 if ct else z3.Not(is685))
